@@ -36,6 +36,8 @@ pub enum ParseError {
     TextAtTopLevel(Span),
     /// Duplicate xml:id is not allowed
     DuplicateId(String, Span),
+    /// The encoding of the bytes is declared or detected as one that is not supported.
+    UnsupportedEncoding,
     /// xmlparser error
     XmlParser(xmlparser::Error, usize),
 }
@@ -58,6 +60,7 @@ impl ParseError {
             ParseError::MultipleElementsAtTopLevel(span) => *span,
             ParseError::TextAtTopLevel(span) => *span,
             ParseError::DuplicateId(_, span) => *span,
+            ParseError::UnsupportedEncoding => Span::new(0, 0),
             ParseError::XmlParser(_, position) => Span::new(*position, *position),
         }
     }
@@ -194,6 +197,7 @@ impl std::fmt::Display for ParseError {
             }
             ParseError::TextAtTopLevel(_) => write!(f, "Text at top level"),
             ParseError::DuplicateId(s, _) => write!(f, "Duplicate xml:id: {}", s),
+            ParseError::UnsupportedEncoding => write!(f, "Unsupported encoding"),
             ParseError::XmlParser(e, _position) => write!(f, "Parser error: {}", e),
         }
     }
